@@ -591,6 +591,20 @@ Section Frag.
     - unfold on_eof in H. destruct (isEOF s); discriminate.
   Qed.
 
+  (* every data chunk whose header the reader accepts declares a signature (and the signature is what the next header's
+     parse verifies): there is no way to pass bytes through a signed stream without one *)
+  Lemma parse_header_data_signed : forall s p s2 sz sg off,
+    parse_header s p = PH_ok s2 sz sg off -> sz <> 0%Z -> sg <> [].
+  Proof.
+    intros s p s2 sz sg off H Hnz. rewrite parse_header_h in H. destruct (Nat.ltb 1024 _); [discriminate|].
+    destruct (hparse (firstHdr s) _) as [[e|sz' sg' k|sg' [[ts ck]|] k]|] eqn:E.
+    - discriminate.
+    - cbn [apply_h] in H. inversion H; subst. destruct (hparse_data_inv _ _ _ _ _ E) as [a [r [_ [_ [_ [_ [_ [_ [_ Hne]]]]]]]]]. exact Hne.
+    - cbn [apply_h] in H. inversion H; subst. exfalso. apply Hnz. reflexivity.
+    - cbn [apply_h] in H. inversion H; subst. exfalso. apply Hnz. reflexivity.
+    - unfold on_eof in H. destruct (isEOF s); discriminate.
+  Qed.
+
   Lemma par_body_ext : forall rec1 rec2 s p,
     (forall s' p', (List.length p' < List.length p)%nat -> rec1 s' p' = rec2 s' p') -> par_body rec1 s p = par_body rec2 s p.
   Proof.
